@@ -147,6 +147,90 @@ void pl_lemma_dm_small(void)
   REVEAL_DM24((Z)(x)); REVEAL_DM60((Z)(x));
   __CPROVER_assert(lemma_dm_small_ENS(x), "lemma_dm_small.ENS");
 }
+void pl_lemma_validday(void)
+{
+  year_t y; int m, d;
+  __CPROVER_assume(lemma_validday_REQ(y, m, d));
+  REVEAL_DAYORD(y, m, d); REVEAL_MONBASE(y, (diff_t)(m));
+  USE(lemma_cong2_REQ(y, NMON_Y1(y, (diff_t)(m)), m, NMON_M1((diff_t)(m)), 1), lemma_cong2_ENS(y, NMON_Y1(y, (diff_t)(m)), m, NMON_M1((diff_t)(m)), 1), "cong2");
+  __CPROVER_assert(lemma_validday_ENS(y, m, d), "lemma_validday.ENS");
+}
+void pl_lemma_nmonpre(void)
+{
+  year_t y; int m; diff_t d; Z cd;
+  __CPROVER_assume(lemma_nmonpre_REQ(y, m, d, cd));
+  REVEAL_MONBASE(y, (diff_t)(m)); REVEAL_NMON_PRE(y, (diff_t)(m), d, cd);
+  STEP(NMON_Y1(y, (diff_t)(m)) == (Z)y, "no month carry for a month in 1..12");
+  __CPROVER_assert(lemma_nmonpre_ENS(y, m, d, cd), "lemma_nmonpre.ENS");
+}
+void pl_lemma_dm_lin(void)
+{
+  Z a, b;
+  __CPROVER_assume(lemma_dm_lin_REQ(a, b));
+  REVEAL_DM60(60 * (Z)(a) + (Z)(b)); REVEAL_DM60((Z)(b)); REVEAL_DM24(24 * (Z)(a) + (Z)(b)); REVEAL_DM24((Z)(b));
+  STEP(FD(60 * a + b, 60) == a + FD(b, 60), "quotient by 60 of 60a+b");
+  STEP(FD(24 * a + b, 24) == a + FD(b, 24), "quotient by 24 of 24a+b");
+  STEP(FM(60 * a + b, 60) == FM(b, 60), "remainder by 60 of 60a+b");
+  STEP(FM(24 * a + b, 24) == FM(b, 24), "remainder by 24 of 24a+b");
+  __CPROVER_assert(lemma_dm_lin_ENS(a, b), "lemma_dm_lin.ENS");
+}
+void pl_lemma_dm_mono(void)
+{
+  Z a, b;
+  __CPROVER_assume(lemma_dm_mono_REQ(a, b));
+  REVEAL_DM60(a); REVEAL_DM60(b); REVEAL_DM24(a); REVEAL_DM24(b);
+  __CPROVER_assert(lemma_dm_mono_ENS(a, b), "lemma_dm_mono.ENS");
+}
+void pl_lemma_validrepr(void)
+{
+  year_t y; int m, d;
+  __CPROVER_assume(lemma_validrepr_REQ(y, m, d));
+  REVEAL_DAYORD(y, m, d); REVEAL_VALIDD(y, m, d);
+  USE(lemma_ordyear_REQ((Z)y, m, d), lemma_ordyear_ENS((Z)y, m, d), "ordyear(y)");
+  USE(lemma_ordyear_REQ((Z)INT64_MIN, 1, 1), lemma_ordyear_ENS((Z)INT64_MIN, 1, 1), "ordyear(min)");
+  USE(lemma_ordyear_REQ((Z)INT64_MAX, 12, 31), lemma_ordyear_ENS((Z)INT64_MAX, 12, 31), "ordyear(max)");
+  __CPROVER_assert(lemma_validrepr_ENS(y, m, d), "lemma_validrepr.ENS");
+}
+void pl_lemma_ordy_mono(void)
+{
+  Z a, b;
+  __CPROVER_assume(lemma_ordy_mono_REQ(a, b));
+  STEP(FD(a + 3, 4) <= FD(b + 3, 4) && FD(a + 399, 400) <= FD(b + 399, 400), "the added leap counts are monotone");
+  STEP(FD(b + 99, 100) - FD(a + 99, 100) <= FD(b + 3, 4) - FD(a + 3, 4), "there are at least as many multiples of 4 as of 100 in between");
+  __CPROVER_assert(lemma_ordy_mono_ENS(a, b), "lemma_ordy_mono.ENS");
+}
+void pl_lemma_dayord_lex(void)
+{
+  year_t y1, y2; int m1, d1, m2, d2;
+  __CPROVER_assume(lemma_dayord_lex_REQ(y1, m1, d1, y2, m2, d2));
+  REVEAL_DAYORD(y1, m1, d1); REVEAL_DAYORD(y2, m2, d2); REVEAL_VALIDD(y1, m1, d1); REVEAL_VALIDD(y2, m2, d2);
+  USE(lemma_ordyear_REQ((Z)y1, m1, d1), lemma_ordyear_ENS((Z)y1, m1, d1), "ordyear(y1)");
+  USE(lemma_ordyear_REQ((Z)y2, m2, d2), lemma_ordyear_ENS((Z)y2, m2, d2), "ordyear(y2)");
+  if (y1 < y2) {
+    if (y1 + 1 < y2) USE(lemma_ordy_mono_REQ((Z)y1 + 1, (Z)y2), lemma_ordy_mono_ENS((Z)y1 + 1, (Z)y2), "ordy_mono(y1+1,y2)");
+    STEP(ORD(y1, m1, d1) < ORD(y2, m2, d2), "an earlier year has smaller ordinals");
+  } else if (y2 < y1) {
+    if (y2 + 1 < y1) USE(lemma_ordy_mono_REQ((Z)y2 + 1, (Z)y1), lemma_ordy_mono_ENS((Z)y2 + 1, (Z)y1), "ordy_mono(y2+1,y1)");
+    STEP(ORD(y2, m2, d2) < ORD(y1, m1, d1), "a later year has larger ordinals");
+  } else {
+    STEP((LEX3LT(y1, m1, d1, y2, m2, d2) ? 1 : 0) == (ORD(y1, m1, d1) < ORD(y2, m2, d2) ? 1 : 0) && ((m1 == m2 && d1 == d2) ? 1 : 0) == (ORD(y1, m1, d1) == ORD(y2, m2, d2) ? 1 : 0), "within one year months and days order the ordinal");
+  }
+  __CPROVER_assert(lemma_dayord_lex_ENS(y1, m1, d1, y2, m2, d2), "lemma_dayord_lex.ENS");
+}
+void pl_lemma_udiff(void)
+{
+  Z A, B, x24, x60a, x60b; int h1, h2, m1, m2, s1, s2;
+  __CPROVER_assume(lemma_udiff_REQ(A, B, h1, h2, m1, m2, s1, s2, x24, x60a, x60b));
+  __CPROVER_assert(lemma_udiff_ENS(A, B, h1, h2, m1, m2, s1, s2, x24, x60a, x60b), "lemma_udiff.ENS");
+}
+void pl_lemma_fits(void)
+{
+  Z u; int a, f;
+  REVEAL_MUL(u);
+  __CPROVER_assume(lemma_fits_REQ(u, a, f));
+  __CPROVER_assert(lemma_fits_ENS(u, a, f), "lemma_fits.ENS");
+}
+void pl_lemma_trunc(void) { diff_t n; __CPROVER_assert(lemma_trunc_ENS(n), "lemma_trunc.ENS"); }
 void pl_lemma_ordbound(void) { year_t y; int m, d; __CPROVER_assert(lemma_ordbound_ENS(y, m, d), "lemma_ordbound.ENS"); }
 void pl_lemma_valid28(void)
 {
